@@ -389,7 +389,11 @@ func driveC02(t *testing.T, out *vEmitter) {
 				}})
 			}
 			e := mk(secret)
-			f := mk("ZYXWVUTSRQPONMLKJIHGFEDCBA987654"[:len(secret)])
+			foreignSecret := "ZYXWVUTSRQPONMLKJIHGFEDCBA987654"
+			if len(secret) > len(foreignSecret) {
+				foreignSecret = base64.RawURLEncoding.EncodeToString([]byte(foreignSecret))
+			}
+			f := mk(foreignSecret[:len(secret)])
 			sOwn := vMkSession(r, fmt.Sprintf("own%d%d", si, ki), k.tokLen)
 			sOther := vMkSession(r, fmt.Sprintf("oth%d%d", si, ki), k.tokLen)
 			own := e.issue(host, sOwn)
